@@ -299,6 +299,12 @@ class Ctx:
         what   : one-line human description
         detail : JSON-serialisable replay payload (scenario, observation, expectation)
         """
+        kf = getattr(self, "key_filter", None)
+        if kf and not key.startswith(kf):
+            # this run also observes another property (its own check reports those)
+            self.extra.setdefault("other_property_disagreements", {}).setdefault(key, 0)
+            self.extra["other_property_disagreements"][key] += 1
+            return
         f = self.findings.get(key)
         if f is None:
             # a finding key ending in '*' covers every disagreement key with that prefix
